@@ -76,6 +76,25 @@ type stackOpts struct {
 	innerMTU int // for mem transports
 	outerMTU int // for frag/mbapp/quic
 	queueLen int
+	skew     bool // node i of a layer with a configurable MTU gets outerMTU>>i: peers that disagree about the limit
+}
+
+func (o stackOpts) mtuOf(i int) int {
+	if !o.skew {
+		return o.outerMTU
+	}
+	m := o.outerMTU >> uint(i)
+	if m < 1 {
+		m = 1
+	}
+	return m
+}
+
+func (o stackOpts) skewTag() string {
+	if o.skew {
+		return ",skewed-mtu"
+	}
+	return ""
 }
 
 func (o stackOpts) withDefaults() stackOpts {
@@ -236,9 +255,9 @@ func buildFragMem(o stackOpts) *Stack {
 	realm := memswarm.NewRealm(memOpts(o)...)
 	sw := make([]p2p.Swarm[memAddr], o.n)
 	for i := range sw {
-		sw[i] = fragswarm.New[memAddr](realm.NewSwarm(), o.outerMTU)
+		sw[i] = fragswarm.New[memAddr](realm.NewSwarm(), o.mtuOf(i))
 	}
-	st := mkStack(fmt.Sprintf("frag(mem,%d/%d)", o.innerMTU, o.outerMTU), sw)
+	st := mkStack(fmt.Sprintf("frag(mem,%d/%d%s)", o.innerMTU, o.outerMTU, o.skewTag()), sw)
 	st.InnerMTU = o.innerMTU
 	return st
 }
@@ -255,10 +274,10 @@ func buildMbappMem(o stackOpts) *Stack {
 	sw := make([]p2p.Swarm[memAddr], o.n)
 	secs := make([]p2p.Secure[memAddr, x509.PublicKey], o.n)
 	for i := range ss {
-		m := mbapp.New[memAddr, x509.PublicKey](ss[i], o.outerMTU)
+		m := mbapp.New[memAddr, x509.PublicKey](ss[i], o.mtuOf(i))
 		sw[i], secs[i] = m, m
 	}
-	st := mkStack(fmt.Sprintf("mbapp(mem,%d/%d)", o.innerMTU, o.outerMTU), sw)
+	st := mkStack(fmt.Sprintf("mbapp(mem,%d/%d%s)", o.innerMTU, o.outerMTU, o.skewTag()), sw)
 	addSecure(st, secs)
 	st.InnerMTU = o.innerMTU
 	return st
@@ -408,7 +427,7 @@ func buildQUICMem(o stackOpts) (*Stack, error) {
 	for i := range sw {
 		var opts []quicswarm.Option[memAddr]
 		if o.outerMTU > 0 {
-			opts = append(opts, quicswarm.WithMTU[memAddr](o.outerMTU))
+			opts = append(opts, quicswarm.WithMTU[memAddr](o.mtuOf(i)))
 		}
 		s, err := quicswarm.New[memAddr](realm.NewSwarm(), keyN(100+i).Priv, opts...)
 		if err != nil {
@@ -416,7 +435,7 @@ func buildQUICMem(o stackOpts) (*Stack, error) {
 		}
 		sw[i], secs[i] = s, s
 	}
-	st := mkStack("quic(mem)", sw)
+	st := mkStack("quic(mem)"+o.skewTag(), sw)
 	addSecure(st, secs)
 	return st, nil
 }
